@@ -17,9 +17,10 @@ keys:    hex of UTF-8 (`-` = "")        pairs: `k=v;k=v` (`.` = empty list)
   mutate <id> <int>
   push <v> | pull | gulp <v> | spew
   setClock <0|1> <int|n> | attach <0|1|n>
+  hold <deck|data|unit>   (no-op: the caller takes a reference)
   region <D11e>                          → true|false  (for the operations since `reset`)
 
-reply:  `<out> | <stamp> | <keys> | <items> | <deck> | <len> | <truth> | <unit items or ->`
+reply:  `<out> | <stamp> | <keys> | <items> | <deck> | <len> | <truth> | <unit items or -> | <dataId>,<deckId>,<unit made: 0 or ->`
 -/
 namespace Ioflo.Drv.Share
 open Ioflo.Proto Ioflo.Share
@@ -110,7 +111,8 @@ def observe (w : World) : String :=
    | some u =>
      match items u with
      | .ok l => showPairs w.pool l
-     | .error e => showErr e)
+     | .error e => showErr e) ++ " | " ++
+  toString w.dataId ++ "," ++ toString w.deckId ++ "," ++ (if w.unit.isSome then "0" else "-")
 
 def decOptNat (s : String) : Option (Option Nat) :=
   if s == "n" then some none else s.toNat?.map some
@@ -164,6 +166,7 @@ def step (s : St) (line : String) : St × String :=
   match words line with
   | ["reset"] => ({ w := init, ops := [] }, "ok")
   | ["region", "D11e"] => (s, toString (regionD11e s.ops.reverse))
+  | ["hold", _] => (s, "unit | " ++ observe s.w)     -- the caller takes a reference: not an operation of the share
   | ws =>
     match parseOp ws with
     | none => (s, "bad-op")
